@@ -25,7 +25,7 @@ func init() {
 			if tier == "quick" {
 				return 3200
 			}
-			return 32000
+			return 16000
 		},
 		Run:      runC12,
 		Required: []string{"solver.std_forward", "solver.std_recursive", "solver.fast_forward", "solver.fast_recursive", "solver.fast_relax", "nets.with_bias_that_matters", "nets.via_genesis", "nets.depth_ge_3"},
@@ -152,6 +152,53 @@ func c12Net(c *Ctx, s *netSpec, in []float64, viaGenesis bool) {
 	_, err = fast.ForwardSteps(steps + 3)
 	if !check("fast_forward", fast.ReadOutputs(), err) {
 		return
+	}
+
+	// a second input vector on instances that have already propagated the first one (no flush in between): a feed-forward
+	// network keeps nothing of the earlier inputs once the new ones have travelled the longest path
+	in2 := make([]float64, len(in))
+	for i := range in {
+		in2[i] = -0.5*in[i] + float64(i+1)*0.37
+	}
+	want2, _, sums2 := s.eval(in2)
+	near := false
+	for v := s.sensors(); v < s.total(); v++ {
+		if (s.Acts[v] == neatmath.StepActivation || s.Acts[v] == neatmath.SignActivation) && math.Abs(sums2[v]) < 1e-9 {
+			near = true
+		}
+	}
+	for _, w := range want2 {
+		near = near || math.IsNaN(w) || math.IsInf(w, 0)
+	}
+	if !near {
+		want, in = want2, in2
+		net = build()
+		_ = net.LoadSensors(in)
+		_, _ = net.ForwardSteps(steps)
+		net2 := net
+		_ = net2.LoadSensors(in2)
+		_, err = net2.ForwardSteps(steps)
+		if !check("std_forward_second_input", net2.ReadOutputs(), err) {
+			return
+		}
+		fast, _ = build().FastNetworkSolver()
+		_ = fast.LoadSensors(in)
+		_, _ = fast.ForwardSteps(steps)
+		_ = fast.LoadSensors(in2)
+		_, err = fast.ForwardSteps(steps)
+		if !check("fast_forward_second_input", fast.ReadOutputs(), err) {
+			return
+		}
+		_ = fast.LoadSensors(in2)
+		_, err = fast.RecursiveSteps()
+		if !check("fast_recursive_second_input", fast.ReadOutputs(), err) {
+			return
+		}
+		_ = fast.LoadSensors(in2)
+		_, err = fast.Relax(s.total()+1, 1e-300)
+		if !check("fast_relax_second_input", fast.ReadOutputs(), err) {
+			return
+		}
 	}
 
 	// coverage: does a bias link matter?
